@@ -8,7 +8,8 @@ ROOT="$(cd "$(dirname "$0")/.." && pwd)"
 export GOFLAGS=-mod=mod GOPROXY=off GOSUMDB=off GOTOOLCHAIN=local
 SCR=$(mktemp -d /tmp/verif-scratch.XXXXXX)
 trap 'rm -rf "$SCR"' EXIT
-rsync -a --exclude .git --exclude /jqawk /repo/ "$SCR/"
+BASE="${SEED_BASE_REPO:-/repo}"   # the tree the change was written against (default: /repo as it is)
+rsync -a --exclude .git --exclude /jqawk "$BASE/" "$SCR/"
 cd "$SCR" || exit 2
 run_demo() {
   if [ -f "$SRC/demo_test.go" ]; then
